@@ -183,7 +183,7 @@ def run(chk, b, tier):
     n = 32 if tier == "quick" else 400
     sz = b.sizer()
     scratch = b.scratchdir()
-    res = R.pmap(one_case, [(R.SEED, i, sz, scratch) for i in range(n)])
+    res = R.pmap(one_case, [(R.SEED, i, sz, scratch) for i in range(n)], chk=chk)
     modes = {}
     for i, r in enumerate(res):
         chk.count(r["evals"])
